@@ -123,3 +123,17 @@ func UnshiftedSplice(s string, pos []int, repl string) string {
 	}
 	return s
 }
+
+// SteppedPastTest: positive control for the stale-guard rule (C07/R14): the index is stepped between the bounds test and
+// the read.
+func SteppedPastTest(s string, i int) bool {
+	if i+1 < len(s) {
+		if s[i+1] == '^' {
+			i++
+		}
+		if s[i+1] == ']' {
+			return true
+		}
+	}
+	return false
+}
